@@ -210,18 +210,16 @@ Section Pin.
     else
       let pg := match gget k_page (c_groups full) with Some p => p | None => [] end in
       if negb (str_isdigit D pg) then Ok false
-      else match int_of D pg with
-           | None => Err ValueErr
-           | Some page =>
-               match pin_number (match c_pin idc with Some p => p | None => [] end) with
-               | None => Ok true
-               | Some ds =>
-                   match int_of D ds with
-                   | None => Err ValueErr
-                   | Some pin => Ok (N.ltb pin page || N.ltb (page + max_pages) pin)
-                   end
-               end
-           end.
+      else
+        match pin_number (match c_pin idc with Some p => p | None => [] end) with
+        | None => Ok true
+        | Some ds =>
+            (* as repaired: a number int() refuses makes the pin cite invalid instead of raising *)
+            match py_int D pg, py_int D ds with
+            | Some page, Some pin => Ok (N.ltb pin page || N.ltb (page + max_pages) pin)
+            | _, _ => Ok true
+            end
+        end.
 
   (* ---- the fold ---- *)
   Record rst := {
